@@ -54,35 +54,35 @@ type AfterSpec struct {
 }
 
 type Contract struct {
-	Ref         string // function reference as written: Name | (T).M | (*T).M | pkg/path.Name for extern
-	Extern      bool
-	Props       []string
-	Requires    []Clause
-	Ensures     []Clause
-	Shows       []Clause // proved like ensures, but not assumed at call sites
-	Returns     []RetSpec
-	Modifies    []string
-	HasMod      bool
-	Decr        []Clause
-	Loops       map[int]*LoopSpec
-	Calls       []CallSpec
-	Afters      []AfterSpec
-	Inline      bool
-	Pure        bool
-	PureRefs    bool // `pure refs`: a function of its argument VALUES even when they are references (the referenced objects are immutable)
-	NoPanic     bool
-	Trusted     string
+	Ref           string // function reference as written: Name | (T).M | (*T).M | pkg/path.Name for extern
+	Extern        bool
+	Props         []string
+	Requires      []Clause
+	Ensures       []Clause
+	Shows         []Clause // proved like ensures, but not assumed at call sites
+	Returns       []RetSpec
+	Modifies      []string
+	HasMod        bool
+	Decr          []Clause
+	Loops         map[int]*LoopSpec
+	Calls         []CallSpec
+	Afters        []AfterSpec
+	Inline        bool
+	Pure          bool
+	PureRefs      bool // `pure refs`: a function of its argument VALUES even when they are references (the referenced objects are immutable)
+	NoPanic       bool
+	Trusted       string
 	AssumeEnsures string // `assumeensures "reason"`: the ensures clauses are assumed (not proved) while the body is still verified for its other clauses
-	AssumeFrame string // `assumeframe "reason"`: the modifies clause is assumed (not proved) while the body is still verified
-	Lets        []LetSpec
-	Waived      map[string]string // obligation suffix -> reason: generated and attempted, but not claimed
-	Bounded     bool              // `bounded F`: F is an exhaustive enumerator (ghost Go func() (cases int, failures []string)) run natively
-	ScopePkg    string            // package path whose scope resolves identifiers (extern contracts declared in a package file)
-	ModAny      bool              // `modifies anything`: no frame is claimed; callers havoc the heap
-	Lemma       bool              // a contract-only obligation (no code): `lemma name` blocks
-	Params      []string          // for lemma blocks: "x Real" declarations
-	File        string
-	Line        int
+	AssumeFrame   string // `assumeframe "reason"`: the modifies clause is assumed (not proved) while the body is still verified
+	Lets          []LetSpec
+	Waived        map[string]string // obligation suffix -> reason: generated and attempted, but not claimed
+	Bounded       bool              // `bounded F`: F is an exhaustive enumerator (ghost Go func() (cases int, failures []string)) run natively
+	ScopePkg      string            // package path whose scope resolves identifiers (extern contracts declared in a package file)
+	ModAny        bool              // `modifies anything`: no frame is claimed; callers havoc the heap
+	Lemma         bool              // a contract-only obligation (no code): `lemma name` blocks
+	Params        []string          // for lemma blocks: "x Real" declarations
+	File          string
+	Line          int
 }
 
 type TypeInv struct {
